@@ -6,6 +6,7 @@
 (* same tree beyond the exhaustive bound.                                  *)
 (*                                                                         *)
 (* Each configuration is reached by exactly one action sequence            *)
+
 (*   Start(kind, opts) ; ( AddVariant(vopt) ; AddField(f)* )* ; Seal       *)
 (* so the Seal action fires once per configuration; it prints the          *)
 (* configuration as a CORPUS line, from which the harness renders the real *)
@@ -27,6 +28,15 @@ CONSTANTS
 VARIABLES cfg, phase
 
 NoCfg == [kind |-> "none", opts |-> DefOpts, variants |-> <<>>]
+
+\* The field-type dimension of the run-time corpora: a field is declared as the probe `P` or as a shared reference
+\* to one (`&'static P`).  For ==, ordering, hashing and formatting the std impls for references delegate to the
+\* referent, so the specification is the same; what differs is the code path inside the macro (where-predicates on
+\* the field type, handlers that look at the type as written, the argument a custom method receives).  Only the
+\* first field of the first variant is offered as a reference, which at most doubles the space.
+HasNonProbeField(c) == \E v \in 1..Len(c.variants) : \E i \in DOMAIN c.variants[v].fields : c.variants[v].fields[i].ty # "P"
+WithRef(c, S) ==
+  S \cup (IF Len(c.variants) = 1 /\ Len(c.variants[1].fields) = 0 /\ ~HasNonProbeField(c) THEN { [f EXCEPT !.ty = "ref"] : f \in S } ELSE {})
 
 BuildInit == cfg = NoCfg /\ phase = "init"
 
